@@ -232,7 +232,11 @@ impl UrlPath {
                 let static_pattern = part.static_pattern.clone().unwrap();
                 // println!("static pattern {:?}", static_pattern);
                 // println!("path {:?}", path);
-                path = path.strip_prefix(static_pattern.as_str()).unwrap().to_string();
+                let boxed_path_without_static_pattern = path.strip_prefix(static_pattern.as_str());
+                if boxed_path_without_static_pattern.is_none() {
+                    return Err("path does not match the pattern".to_string());
+                }
+                path = boxed_path_without_static_pattern.unwrap().to_string();
             } else {
                 // continue, unless the part is last,
                 // if so read to the end of path and add to map
@@ -253,6 +257,9 @@ impl UrlPath {
 
         let mut map = HashMap::new();
         for part in resulting_parts {
+            if part.name.is_none() || part.value.is_none() {
+                return Err("path does not match the pattern".to_string());
+            }
             let key = part.name.unwrap();
             let value = part.value.unwrap();
 
